@@ -2,8 +2,8 @@ CONSTANTS
  Space = "gen"
  GenMode = "space"
  Scenarios <- SpaceScns
- Anchoring = "asis"
- PlatMatch = "asis"
+ Anchoring = "fixed"
+ PlatMatch = "fixed"
  Chars <- CharsDef
  NameOrder <- NameOrderDef
 INIT GInit
